@@ -20,6 +20,15 @@ import re
 import vlib
 
 PROPS = "Properties_C10"
+# leaf functions / constants of path.c are re-translated from the C source on every run (tools/translate_leaf.py ->
+# coq/gen/Leaf.v, Constants.v) and re-proved equal to the model's (coq/Properties_leaf_path.v)
+EXTRA_PROPS = ["Properties_leaf_path"]
+
+
+def REGEN(ctx):
+    vlib.regen_leaf(ctx, ["Path"])
+
+
 RULE = ("every string over {'/','.','a','b'} up to length 7 (quick) / 10 plus every string over {'/','.','a'} of "
         "length 11 (thorough), random strings up to length 300 over separator/dot-heavy byte alphabets (bytes 1..255), "
         "pattern strings (separator runs x dot names), NULL for the queries, and rewritten-buffer pairs (every ordered "
